@@ -135,6 +135,10 @@ def gen_crash(rng, how=None):
         "failed_first": rng.random() < 0.25,
         "proto": rng.choice([2, 3, 4, 5]),
         "init_seed": rng.randrange(1 << 30),
+        # state_dict restores: the dict is handed over in memory (B.load_state_dict(A.state_dict())) instead of through
+        # torch.save / torch.load; the target was switched to load_strict_shapes(False) first
+        "inmem": rng.random() < 0.3,
+        "loose_shapes": rng.random() < 0.3,
     }
 
 
@@ -313,6 +317,12 @@ def restore(out, i, src_live, op, recipe, tol, phase):
             except Exception:  # noqa
                 pass
     sd = torch.load(io.BytesIO(data))
+    if op.get("inmem"):
+        sd = src.state_dict()
+        out.stats["probe:state_dict_handed_over_in_memory"] += 1
+    if op.get("loose_shapes"):
+        new.load_strict_shapes(False)
+        out.stats["probe:load_strict_shapes_false"] += 1
     try:
         if op["failed_first"]:
             bad = dict(sd)
@@ -347,6 +357,13 @@ def restore(out, i, src_live, op, recipe, tol, phase):
         if n in src_modes and m.training != src_modes[n]:
             m.train(src_modes[n])
     out.stats["probe:restored_state_dict"] += 1
+    if op.get("loose_shapes"):
+        new.load_strict_shapes(True)
+    # the restored model is a model of its own: no parameter / buffer shares storage with the model the dict came from
+    a, b = src.state_dict(keep_vars=True), new.state_dict(keep_vars=True)
+    shared = [n for n in sorted(a) if n in b and a[n].numel() > 0 and a[n].data_ptr() == b[n].data_ptr()]
+    if shared:
+        out.violate("copy_not_independent", i, "state_dict restore (%s%s): the restored model shares storage with the original: %s" % ("in memory" if op.get("inmem") else "via torch.save", ", load_strict_shapes(False)" if op.get("loose_shapes") else "", shared[:3]), quantity="storage", loose_shapes=bool(op.get("loose_shapes")), **cls)
     return restored
 
 
